@@ -7,6 +7,7 @@ import warnings
 
 import common
 from props import accessspec as spec
+from props import classentries
 from props import visitlib as vl
 
 PID = "C02"
@@ -19,7 +20,16 @@ def run(tier, seed, build):
                 "overlapping identifiers in one module; per function: real FunctionAnalyser vs Lean model, then every name of "
                 "the real own IR must be justified by the body (occurrence with the right kind, receiver prefix, getattr-family "
                 "target/prefix, named plugin derivations). Freshness: each function is also analysed alone in a fresh context "
-                "and must give the same IR. non-trivial = distinct function whose IR has >= 3 names")
+                "and must give the same IR. non-trivial = distinct function whose IR has >= 3 names. "
+                "Class entries: generated 1-3 file projects (target + followed imports) of name families around an Enum class "
+                "without __init__ (classes / variables / functions / lambdas / namedtuples / import aliases whose identifiers "
+                "extend, prefix, end with or equal the enum's name, before and after it; NamedTuple classes, enums with "
+                "__init__, static methods, nested classes, odd member statements); per file the real FileAnalyser vs the Lean "
+                "model (op analyse_file), the real parse_and_analyse_file() snapshot (target + every followed import), the CLI "
+                "(-o ir, -o results for call-free entries); EVERY FileIr entry is bounded from the source: function / lambda / "
+                "__init__ / static method by its own body, the synthetic enum initialiser by {Class.m : the class body itself "
+                "stores to m at class scope}, namedtuple by nothing, @rattr_results by its literals; also non-trivial = "
+                "distinct justified enum / init / static / namedtuple entry with >= 1 name")
     rng = random.Random(seed)
     n_modules = 60 if tier == "quick" else 900
     model = common.Model()
@@ -83,9 +93,19 @@ def run(tier, seed, build):
                                        "with_siblings": {k: c.im[k] for k in ("gets", "sets", "dels")},
                                        "alone": {k: im2[k] for k in ("gets", "sets", "dels")}})
     res.extra["freshness_cases"] = n_fresh
+
+    # class entries (and every other FileIr entry) of whole projects: target + followed imports, FileAnalyser vs the
+    # Lean model (op analyse_file), the real pipeline in-process, the CLI (-o ir / -o results)
+    res.extra["class_entry_verdicts"] = classentries.run_stage(
+        res, random.Random(seed + 7002), 70 if tier == "quick" else 900, 14 if tier == "quick" else 80, model)
     res.assumptions = [
         "[interp] named derivations admitted beyond the property's list: sorted(xs, key=lambda x: x.k) reports xs.k; defaultdict(factory) reports a call to factory",
         "[interp] `E()` (a call result used as a name-chain link) counts as an occurrence of the expression E()",
+        "[interp] heuristicInit: the synthetic initialiser of an Enum-by-heuristic class without __init__ may report gets `Class.m` "
+        "for every identifier m the class body ITSELF stores to at class scope (any binding statement), and nothing else; a "
+        "NamedTuple-by-heuristic class reports nothing; an @rattr_results entry reports its declared literals",
+        "[interp] when one identifier has several definitions in a file the entry is judged against the last one (Python's rule); "
+        "an entry completely justified by a shadowed definition is not counted against the property",
     ]
     return res
 
